@@ -404,7 +404,8 @@ Proof.
     + set (s1 := upd_task s k _).
       assert (F1 : fsame s (tr_close s1 t)) by (eapply fsame_trans; [apply upd_task_fs | apply tr_close_fs]).
       eapply NF_G. apply sr_exception_F. intros; apply sr_attempt_F; auto. eapply nopend_fsame; eauto. apply (fs_has _ _ F1). exact Hk.
-    + set (s1 := upd_task s k _).
+    + destruct (has_waiter k t (s_ready s)); [exact HG|].
+      set (s1 := upd_task s k _).
       assert (F1 : fsame s (s1 <| s_transport := Some t |>)) by (apply fsame_trans with (b := s1); [apply upd_task_fs | fs_eq]).
       eapply NF_G. apply sr_after_send_F. intros; apply sr_attempt_F; auto. eapply nopend_fsame; eauto. apply (fs_has _ _ F1). exact Hk.
   - (* PcConnHang *)
@@ -455,7 +456,7 @@ Proof.
     + destruct (tstate_of s t); cbn; destruct (s_kind s); fs_eq.
   - exact HG.
   - destruct (get_task k (s_tasks s)) as [tk|]; [|exact HG].
-    destruct (t_pc tk); try exact HG. destruct (t_cancelled tk); [exact HG|]. cbn [fst]. eapply G_ls; eauto. apply push_ls. apply push_fs.
+    destruct (t_pc tk); try exact HG. destruct (_ || _); [exact HG|]. cbn [fst]. eapply G_ls; eauto. apply push_ls. apply push_fs.
   - destruct (tstate_of s t); try exact HG. destruct i.
     + eapply G_ls; eauto. apply received_ls. apply received_fs.
     + cbn [fst]. eapply G_ls; eauto. eapply lsame_trans. apply close_transport_ls. apply tr_close_ls.
